@@ -54,6 +54,71 @@ def is_mutable_value(sc: Scope, v: ast.AST) -> bool:
     return False
 
 
+IMMUTABLE_RETURNS = ("Tuple[", "tuple[", "float", "int", "str", "bool", "Optional[Tuple[", "Optional[float]", "Optional[int]", "Optional[str]")
+
+
+def transparent_memo_tables(project, eff):
+    """{dotted: reason} for module-level dicts that can only ever act as a transparent cache: every write is `D[key] = value` with a key
+    shown injective in all the value is computed from (sa/memo.py), the value is the result of a package function annotated to return an
+    immutable type (nobody can alter a cached object in place), and D is mentioned nowhere else than in those stores and in
+    `D.get(<the same key>)` / `D[<the same key>]` / `<the same key> in D` of the same function.  The result of a call is then the same
+    whatever the table holds: no history or thread dependence (a racing duplicate computation stores the same value)."""
+    from sa import memo as M
+    writes = {}
+    for q, s in eff.sum.items():
+        for dotted, node in s.module_writes:
+            writes.setdefault(dotted, []).append((s.fi, node))
+    out = {}
+    for dotted, ws in writes.items():
+        short = dotted.rsplit(".", 1)[-1]
+        good, keys, stores, why = True, {}, set(), ""
+        for fi, node in ws:
+            params = {a.arg for a in fi.node.args.posonlyargs + fi.node.args.args + fi.node.args.kwonlyargs}
+            env, unpack = M._env(fi.node)
+            tgt = next((t for t in getattr(node, "targets", []) if isinstance(t, ast.Subscript) and isinstance(t.value, ast.Name) and t.value.id == short), None) if isinstance(node, ast.Assign) else None
+            if tgt is None:
+                good = False
+                break
+            verdict, why = M.store_verdict(tgt.slice, node.value, env, unpack, params)
+            val = M._expand(node.value, env, params)
+            callee = Scope(project, fi).resolve_call(val) if isinstance(val, ast.Call) else None
+            ret = project.funcs[callee].node.returns if callee in project.funcs else None
+            if verdict != "ok" or ret is None or not ast.unparse(ret).startswith(IMMUTABLE_RETURNS):
+                good = False
+                break
+            keys.setdefault(fi.qualname, set()).add(ast.dump(M._expand(tgt.slice, env, params)))
+            stores.add(id(tgt.value))
+        if not good:
+            continue
+        for fi in project.funcs.values():
+            params = {a.arg for a in fi.node.args.posonlyargs + fi.node.args.args + fi.node.args.kwonlyargs}
+            env, unpack = None, None
+            parents = {}
+            for n in ast.walk(fi.node):
+                for c in ast.iter_child_nodes(n):
+                    parents[id(c)] = n
+            for n in ast.walk(fi.node):
+                if not (isinstance(n, ast.Name) and n.id == short) and not (isinstance(n, ast.Attribute) and n.attr == short):
+                    continue
+                if id(n) in stores:
+                    continue
+                if env is None:
+                    env, unpack = M._env(fi.node)
+                par = parents.get(id(n))
+                k = None
+                if isinstance(par, ast.Attribute) and par.attr == "get" and isinstance(parents.get(id(par)), ast.Call) and len(parents[id(par)].args) == 1:
+                    k = parents[id(par)].args[0]
+                elif isinstance(par, ast.Subscript) and par.value is n and isinstance(par.ctx, ast.Load):
+                    k = par.slice
+                elif isinstance(par, ast.Compare) and len(par.ops) == 1 and isinstance(par.ops[0], (ast.In, ast.NotIn)) and par.comparators[0] is n:
+                    k = par.left
+                if k is None or ast.dump(M._expand(k, env, params)) not in keys.get(fi.qualname, ()):
+                    good = False
+        if good:
+            out[dotted] = why
+    return out
+
+
 def run(project, chk):
     eff = Effects(project)
     chk.rule("P1", "no function rebinds (global) or mutates an object bound at module level or on a class; module-level mutable objects are never written")
@@ -114,6 +179,7 @@ def run(project, chk):
 
     # ---------------------------------------------------------------- per function
     writes_to = {}  # dotted module-level name -> [(fi, node)]
+    transparent = transparent_memo_tables(project, eff)
     for q, s in sorted(eff.sum.items()):
         fi = s.fi
         m = fi.module
@@ -126,6 +192,9 @@ def run(project, chk):
         if ok:
             chk.ok("P1", f"{project.loc(m, fi.node)} {fi.short}", "writes no module-level / class-level object", "no global rebinding, no store or mutator call rooted at a module-level name")
         for dotted, node in s.module_writes:
+            if dotted in transparent:
+                chk.ok("P1", f"{project.loc(m, node)} {fi.short}", f"{dotted} is a transparent memo table: {transparent[dotted]}", "sa/memo.py: key injectivity, immutable value, lookup idiom only")
+                continue
             chk.fail("P1", fi.short, norm_text(node), project.loc(m, node),
                      f"writes module-level state {dotted} (result may depend on call history / thread interleaving)")
         # class attributes written through self/cls/ClassName: self.X[...] = / self.X.append where X is class-level mutable
@@ -247,6 +316,8 @@ def run(project, chk):
     # module-level mutable objects are never written by anyone
     for dotted, (m, st) in sorted(module_mutables.items()):
         ws = writes_to.get(dotted, [])
+        if dotted in transparent:
+            ws = []
         chk.check(not ws, "P1", f"{m.name}:<module>", norm_text(st)[:100], project.loc(m, st),
                   f"module/class-level mutable object {dotted} is written by no function in the package",
                   how="no function's module-write set names it", message=f"{dotted} is mutated by {[f.short for f, _ in ws]}")
